@@ -683,19 +683,41 @@ func (e *env) syncHead() bool {
 	return true
 }
 
+// ensureNode builds the real node over the chain whose tx pool is the pool under test.
+func (e *env) ensureNode() *node.Node {
+	if e.pnode == nil {
+		g := e.net.God
+		dev := e.net.Devs[0]
+		if e.ptmp == "" {
+			dir, err := os.MkdirTemp("", "verif-poolsim-")
+			must(err)
+			e.ptmp = dir
+		}
+		e.pcomm = &sim.Comm{}
+		e.pnode = node.New(&node.Master{PrivateKey: dev.PrivateKey, Beneficiary: &dev.Address}, g.Repo, g.BFT, g.Stater, g.LogDB,
+			e.pool, e.ptmp, e.pcomm, e.net.FC, node.Options{SkipLogs: true}, g.Cons, g.Packer)
+	}
+	return e.pnode
+}
+
+// newPool replaces the pool (and the node built on it) by fresh ones: what a process restart does to them.
+func (e *env) newPool() {
+	if e.pnode != nil {
+		e.pnode.VerifClose()
+		e.pnode = nil
+	}
+	e.pool.VerifSetTracer(nil)
+	e.pool.Close()
+	e.pool.VerifRelease()
+	e.pool = txpool.VerifNewManual(e.net.God.Repo, e.net.God.Stater, e.opt.pool, e.net.FC)
+	e.evs.pool = e.pool
+}
+
 // packBlock runs the body of the node's packer loop for one block on a REAL node whose tx pool is the pool under test:
 // Executables() -> flow.Adopt each -> Pack -> commitBlock -> cleanupTransactions (pool.Remove of what Adopt called bad).
 func (e *env) packBlock() (*block.Block, error) {
 	g := e.net.God
-	if e.pnode == nil {
-		dev := e.net.Devs[0]
-		dir, err := os.MkdirTemp("", "verif-poolsim-")
-		must(err)
-		e.ptmp = dir
-		e.pcomm = &sim.Comm{}
-		e.pnode = node.New(&node.Master{PrivateKey: dev.PrivateKey, Beneficiary: &dev.Address}, g.Repo, g.BFT, g.Stater, g.LogDB,
-			e.pool, dir, e.pcomm, e.net.FC, node.Options{SkipLogs: true}, g.Cons, g.Packer)
-	}
+	e.ensureNode()
 	must(e.pnode.VerifInit()) // blocks minted outside this node moved the chain on
 	best := e.best()
 	flow, err := g.Packer.Schedule(best, best.Header.Timestamp()+thor.BlockInterval())
